@@ -149,6 +149,8 @@ def record(cfg: dict, seed: int, terms: dict) -> sweep.SweepLog:
     rho = dict(mp.RHO_SHIPPED) if cfg["shipped_rho"] else mp.random_rho(rng)
     phi = 0.1 if cfg["shipped_rho"] else float(rng.uniform(0.03, 0.3))
     a = float(rng.choice([0.5, 2.0, 3.0]))
+    if i % 5 == 4:
+        phi, a = 1.0, 0.5   # the closed upper end of the porosity range (per-unit-porosity normalisation)
     P, so_t = tab["P"], tab["So"]
     n = len(P)
     pvt, kr = mp.interpolators(P, tab["cols"], rho, kr_so, kr_cols, so_t)
